@@ -56,6 +56,21 @@ WORKSPACES = {
         "a_app.f90": "module a_app\n use s_base\n implicit none\n type, extends(shape_t) :: circle_t\n  real :: radius\n end type circle_t\ncontains\n subroutine work(c)\n  type(circle_t) :: c\n"
                      "  c%ident = 1\n  c%\n end subroutine work\nend module a_app\n",
     },
+    # one INCLUDE file spliced into two modules (known finding C15:include-two-includers)
+    "include_two_includers": {
+        "common_decl.f90": "integer :: shared_n\n",
+        "inc_ma.f90": "module inc_ma\n implicit none\n include 'common_decl.f90'\nend module inc_ma\n",
+        "inc_mb.f90": "module inc_mb\n implicit none\n include 'common_decl.f90'\nend module inc_mb\n",
+    },
+    # a header name present in two include directories: which one is read must not depend on the hash seed
+    "header_in_two_dirs": {
+        "__include_dirs__": ["inc1", "inc2", "inc3"],      # not a file: passed as --include_dirs (absolute) to every schedule
+        "inc1/defs.h": "#define WP 4\n",
+        "inc2/defs.h": "#define WP 8\n",
+        "inc3/defs.h": "#define WP 16\n",
+        "src/m_hdr.F90": "#include \"defs.h\"\nmodule m_hdr\n implicit none\n real(WP) :: tol\nend module m_hdr\n",
+        "src/u_hdr.f90": "program u_hdr\n use m_hdr\n implicit none\n tol = 1.0\nend program u_hdr\n",
+    },
     # two preprocessed files include the same header, which branches on a macro only one of them defines before the #include
     "shared_header": {
         "precision.h": "#ifdef SINGLE_PRECISION\n#define WP 4\n#else\n#define WP 8\n#define HAVE_QUAD 1\n#endif\n",
@@ -66,8 +81,8 @@ WORKSPACES = {
 }
 
 
-def run_schedule(root, files, order, nthreads, seed, mode="init", empty=None):
-    spec = {"root": root, "files": files, "order": order, "nthreads": nthreads, "mode": mode, "empty": empty}
+def run_schedule(root, files, order, nthreads, seed, mode="init", empty=None, extra=()):
+    spec = {"root": root, "files": files, "order": order, "nthreads": nthreads, "mode": mode, "empty": empty, "extra": list(extra)}
     env = dict(os.environ, PYTHONHASHSEED=str(seed), PYTHONPATH=REPO)
     p = subprocess.run([PY, os.path.join(VERIF, "harness", "c15_runner.py"), json.dumps(spec)], capture_output=True, text=True, env=env, timeout=300)
     for line in p.stdout.split("\n"):
@@ -99,6 +114,9 @@ def sweep(ctx, quick):
     for wname, files in spaces.items():
         root = tempfile.mkdtemp(prefix="verif_c15_")
         empty = tempfile.mkdtemp(prefix="verif_c15_e_")
+        files = dict(files)
+        inc_dirs = files.pop("__include_dirs__", None)
+        extra = (["--include_dirs"] + [os.path.join(root, x) for x in inc_dirs]) if inc_dirs else []
         try:
             # file names are given a random prefix so that the alphabetical order differs between runs
             names = sorted(files)
@@ -118,7 +136,7 @@ def sweep(ctx, quick):
             for pm in perms[: (4 if quick else 24)]:
                 scheds.append(("open", list(pm), 1, 0))
             with ThreadPoolExecutor(max_workers=8) as ex:
-                results = list(ex.map(lambda s: run_schedule(root, names, s[1], s[2], s[3], s[0], empty), scheds))
+                results = list(ex.map(lambda s: run_schedule(root, names, s[1], s[2], s[3], s[0], empty, extra), scheds))
             ref = results[0]
             for s, got in zip(scheds, results):
                 ctx.count(("schedule", wname, s[0], tuple(s[1]), s[2], s[3]), s[1] != names or s[2] != 1 or s[3] != 0)
